@@ -20,7 +20,8 @@ structure BatchInv (cfg : Cfg) (den : Key → α) (rest : List (Key × α)) (s :
   preIff : ∀ k, k ∈ preKeys s.log ↔ k ∈ s.st.running ∨ k ∈ s.st.finished
   postNodup : (postKeys s.log).Nodup
   postIff : ∀ k, k ∈ postKeys s.log ↔ k ∈ s.st.finished
-  preSnap : ∀ e ∈ s.log, ∀ k, e.1 = Ev.pretask k → ∀ d ∈ e.2.depsOf k, e.2.cache.get? d = some (den d)
+  preSnap : ∀ e ∈ s.log, ∀ k, e.1 = Ev.pretask k →
+    ∀ d ∈ e.2.depsOf k, e.2.cache.get? d = some (den d) ∧ done cfg.g e.2 d
   noFinish : ∀ e ∈ s.log, ∀ b, e.1 ≠ Ev.finish b
 
 abbrev SysInv (cfg : Cfg) (den : Key → α) (s : Sys α) : Prop := BatchInv cfg den [] s
